@@ -26,9 +26,12 @@ fn normalize(scn: &Scenario, l: &RunLog) -> (Norm, Vec<String>) {
 
 pub fn run(ctx: &Ctx) -> Outcome {
     let mut out = crate::exhaust::seqnr::run(ctx);
-    let scns = lib::core();
+    let mut scns = lib::core();
     let pick = ctx.tier.pick(4, scns.len());
-    for scn in scns.iter().take(pick) {
+    scns.truncate(pick);
+    // the peer's FIN meets an established connection that still has cut-but-unsent segments queued
+    scns.push(lib::early_shutdown());
+    for scn in scns.iter() {
         // plans: fault-free and every single drop / 300 ms delay (these produce SACK, fast retransmit and RTO)
         let base = determinism_check(scn, &Abort::None);
         let mut plans: Vec<Plan> = vec![vec![]];
